@@ -1843,7 +1843,9 @@ func (r *replayer) sweep(beh []step, idx int, chain []int, l1 int) {
 			}
 		}
 	}
+	// the number above the head: whatever the reverted block of that number left behind, it is not found
 	ask(action{Name: "getClassHashAt", ID: &blockID{K: "num", N: len(chain)}, C: 1})
+	ask(action{Name: "getStateUpdate", ID: &blockID{K: "num", N: len(chain)}})
 	for i := len(r.reverted) - 1; i >= 0 && i >= len(r.reverted)-2; i-- {
 		p := r.reverted[i]
 		if len(p) <= len(chain) && eqInts(p, chain[:len(p)]) {
